@@ -105,7 +105,7 @@ func (g *vgen) answer(x vTxRef) vRcAns {
 	case 5:
 		return vRcAns{kind: "err"}
 	}
-	return vRcAns{kind: "bad", bh: x.bh}
+	return vRcAns{kind: []string{"bad0", "bad1"}[g.r.Intn(2)], bh: x.bh}
 }
 
 func (g *vgen) goodAnswer(x vTxRef) vRcAns {
@@ -393,7 +393,7 @@ func (g *vgen) reobs(c *vCase, truth []*vTruth, known bool, en bool, W uint64) v
 	case 3:
 		ro.rc = vRcAns{kind: "err"}
 	case 4:
-		ro.rc = vRcAns{kind: "bad", bh: bh}
+		ro.rc = vRcAns{kind: []string{"bad0", "bad1"}[r.Intn(2)], bh: bh}
 	case 5:
 		ro.rc.status = uint64([]int{0, 0, 2, 255}[r.Intn(4)])
 	}
